@@ -58,3 +58,53 @@ def replaceSeparator (st : ChainStore) (s : Slot) (newKey : List Nat) : ChainSto
 /-- the code before the repair: only the key is replaced -/
 def replaceSeparatorOld (st : ChainStore) (s : Slot) (newKey : List Nat) : ChainStore × Slot :=
   (st, { s with key := newKey })
+
+/-! ## who owns a chain: rebalancing of internal nodes
+
+`redistribute_internal_from_left/right` rotate one key through the parent (`redistribute_to_right`,
+`take_from_right`): the parent's separator goes down into the child *together with its chain*, the
+child's boundary key goes up together with its own.  `merge_internal_nodes` moves the separator down
+the same way.  Nothing is allocated or freed.  Only when two *leaves* merge does the separator
+disappear, and then its chain is freed (`merge_leaf_nodes`). -/
+
+/-- key slots of the left child, the separator in the parent, key slots of the right child -/
+abbrev Trio := List Slot × Slot × List Slot
+
+def Trio.slots (t : Trio) : List Slot := t.1 ++ t.2.1 :: t.2.2
+
+/-- `redistribute_internal_from_left` -/
+def rotRight (t : Trio) : Option Trio :=
+  match t.1.getLast? with
+  | none => none
+  | some l => some (t.1.dropLast, l, t.2.1 :: t.2.2)
+
+/-- `redistribute_internal_from_right` -/
+def rotLeft (t : Trio) : Option Trio :=
+  match t.2.2 with
+  | [] => none
+  | r :: rs => some (t.1 ++ [t.2.1], r, rs)
+
+/-- `merge_internal_nodes`: the merged node's slots -/
+def mergeInternal (t : Trio) : List Slot := t.slots
+
+/-- `merge_leaf_nodes`: the separator goes away and its chain is freed -/
+def dropSeparator (st : ChainStore) (sep : Slot) : ChainStore :=
+  match sep.ovf with
+  | some c => st.free c
+  | none => st
+
+/-- the rotation of the seeded change: the parent slot is rewritten through `replace_separator`, which
+frees the chain that has just moved down with the old separator and forgets the chain that came up -/
+def rotRightBad (st : ChainStore) (t : Trio) : Option (ChainStore × Trio) :=
+  match t.1.getLast? with
+  | none => none
+  | some l =>
+    let (st', p') := replaceSeparator st t.2.1 l.key
+    some (st', (t.1.dropLast, p', t.2.1 :: t.2.2))
+
+/-- ownership: every recorded chain holds the tail of its slot's key, no chain has two owners, and
+every allocated chain has an owner -/
+structure Owned (loc : Nat) (st : ChainStore) (slots : List Slot) : Prop where
+  cons : ∀ s ∈ slots, slotConsistent loc st s
+  nodup : (slots.filterMap (·.ovf)).Nodup
+  noLeak : ∀ p ∈ st.chains, p.1 ∈ slots.filterMap (·.ovf)
